@@ -116,7 +116,35 @@ func TestVerif_C39(t *testing.T) {
 		vWriteTree(t, src, vGenFiles(r, 5, 40, false))
 		target := filepath.Join(e.base, "restore-target")
 		last := ids[len(ids)-1]
+		repoID := ""
+		if rp, oerr := e.open(); oerr == nil {
+			repoID = rp.Config().ID
+		}
+		asJSON := func(fn func(ctx context.Context, g global.Options) error) func(ctx context.Context, g global.Options) error {
+			return func(ctx context.Context, g global.Options) error {
+				g.JSON = true
+				return fn(ctx, g)
+			}
+		}
 		cases := []vROCase{
+			{"forget --dry-run --prune --json keep-last=1", false, asJSON(func(ctx context.Context, g global.Options) error {
+				return runForget(ctx, ForgetOptions{Last: 1, DryRun: true, Prune: true, GroupBy: data.SnapshotGroupByOptions{Host: true, Path: true}}, PruneOptions{MaxUnused: "0"}, g, g.Term, nil)
+			})},
+			{"forget --dry-run --prune --json id", false, asJSON(func(ctx context.Context, g global.Options) error {
+				return runForget(ctx, ForgetOptions{DryRun: true, Prune: true}, PruneOptions{MaxUnused: "0"}, g, g.Term, []string{ids[0]})
+			})},
+			{"forget --dry-run --json keep-last=1", false, asJSON(func(ctx context.Context, g global.Options) error {
+				return runForget(ctx, ForgetOptions{Last: 1, DryRun: true, GroupBy: data.SnapshotGroupByOptions{Host: true, Path: true}}, PruneOptions{MaxUnused: "5%"}, g, g.Term, nil)
+			})},
+			{"backup --dry-run --json", false, asJSON(func(ctx context.Context, g global.Options) error {
+				return runBackup(ctx, BackupOptions{DryRun: true, GroupBy: data.SnapshotGroupByOptions{Host: true, Path: true}}, g, g.Term, []string{src})
+			})},
+			{"prune --dry-run --unsafe-recover-no-free-space", false, func(ctx context.Context, g global.Options) error {
+				return runPrune(ctx, PruneOptions{DryRun: true, MaxUnused: "0", UnsafeNoSpaceRecovery: repoID}, g, g.Term)
+			}},
+			{"prune --dry-run max-repack-size=0", false, func(ctx context.Context, g global.Options) error {
+				return runPrune(ctx, PruneOptions{DryRun: true, MaxUnused: "unlimited", MaxRepackSize: "0"}, g, g.Term)
+			}},
 			{"backup --dry-run", false, func(ctx context.Context, g global.Options) error {
 				return runBackup(ctx, BackupOptions{DryRun: true, GroupBy: data.SnapshotGroupByOptions{Host: true, Path: true}}, g, g.Term, []string{src})
 			}},
@@ -194,7 +222,9 @@ func TestVerif_C39(t *testing.T) {
 			err := ce.run("ro:"+c.name, func() kit.Ev { return kit.Ev{"readonly": true, "nolock": nolock} }, c.fn)
 			after := st.Files()
 			res.Case(fmt.Sprintf("%d/%s", seed, c.name), true)
-			d := vFilesEqual(baseFiles, after, !c.nolock)
+			// the storage after the command is compared byte for byte, lock files included: the lock a dry run
+			// takes while it works is its own business, a lock file left behind is a modification
+			d := vFilesEqual(baseFiles, after, false)
 			if d != "[]" {
 				res.Violate("readonly/"+c.name+"/storage-changed", fmt.Sprintf("repo %d: %s modified the repository: %s", seed, c.name, d), map[string]any{"repo": seed, "cmd": c.name})
 			} else if err != nil {
